@@ -235,6 +235,10 @@ impl Geom {
             if raw.bk_boot_sec as u64 >= rsvd {
                 return Err("backup boot sector outside the reserved area".into());
             }
+            if raw.ext_flags & 0x80 != 0 && (raw.ext_flags & 0x0F) as u64 >= raw.num_fats as u64 {
+                // mirroring disabled: the named copy has to be one of the copies (otherwise the "table" lies in the data region)
+                return Err(format!("active FAT {} of {} FAT copies", raw.ext_flags & 0x0F, raw.num_fats));
+            }
         } else if raw.root_ent_cnt == 0 {
             return Err("FAT12/16 volume without root directory entries".into());
         }
